@@ -135,6 +135,7 @@ func (c *runCtx) mine(key ...[]byte) bool {
 		}
 		c.current.Store(c.prop + " case input(prefix)=" + hx(k))
 	}
+	c.startedCPU.Store(int64(cpuTime()))
 	c.started.Store(time.Now().UnixNano())
 	if c.nshard <= 1 {
 		return true
@@ -314,7 +315,16 @@ var watchCtx *runCtx
 
 func watchCall(x []byte, limit uint32) func() {
 	w := watchCtx
-	if w == nil || w.started.Load() != 0 {
+	if w == nil {
+		return func() {}
+	}
+	if st := w.started.Load(); st != 0 {
+		// armed by a numbered case: a call that starts is progress, so an arm older than 5 s is renewed (the time
+		// limit is about one call that does not return, not about long runs of calls behind one case number)
+		if time.Since(time.Unix(0, st)) > 5*time.Second {
+			w.startedCPU.Store(int64(cpuTime()))
+			w.started.Store(time.Now().UnixNano())
+		}
 		return func() {}
 	}
 	k := x
